@@ -544,7 +544,7 @@ class CSVWriter extends rbql.RBQLOutputWriter {
     set_header(header) {
         if (header !== null) {
             this.header_len = header.length;
-            this.write(header);
+            this.write(header.slice()); // write() normalizes its argument in place, the caller's header array must stay intact
         }
     }
 
